@@ -238,6 +238,9 @@ func mutateRepo(r Repo, f Fault) Repo {
 	switch f.Kind {
 	case "add":
 		pos := (f.K * 7) % (len(n.Recs) + 1)
+		if pos == 0 && n.Recs[0].ID == 0 {
+			pos = 1 // ID 0x0000 may only be carried by the first record
+		}
 		n.Recs = append(n.Recs[:pos], append([]Rec{extra}, n.Recs[pos:]...)...)
 	case "append-keep":
 		n.Recs = append(n.Recs, extra)
